@@ -11,7 +11,7 @@
 // with, and nothing else is reported as Panic; Timeout is reported only for a non-zero timeout that really elapsed, and only
 // after the abort signal was set and every worker woken, so that no model code keeps running behind a terminated simulation.
 // What is NOT here (threads): that the workers fold their thread-local counts into the global count BEFORE the pool looks
-// idle (assumption A-mt of `load_msg_count`; see finding F7 in DESIGN §7), the pool manager's bit set, the parker.
+// idle (assumption A-mt of `load_msg_count`; it was false until the fix of finding F8, DESIGN §7), the pool manager's bit set, the parker.
 // Sharing elided (R2): `Arc<ExecutorContext>` is a plain field and the observed components take `&mut self` so that they
 // can carry a ghost record of what was observed. The parker calls are lifted to the executor (rule PARK) because parking is
 // the point where the workers run: the stub forgets everything observed about the pool.
@@ -19,6 +19,7 @@
 //@rule PARK :: self\.parker\.park\(\) :: self.park() :: R2 parking lets the workers run: lifted to the executor so that the stub can forget what was observed of the pool
 //@rule PARKT :: self\.parker\.park_timeout\(timeout\) :: self.park_timeout(timeout) :: R2
 //@rule TRYINTO :: (\b\w+(?:\.\w+)*)\.try_into\(\)\.unwrap\(\) :: isize_to_usize_or_panic(\1) :: R6 TryFrom<isize> for usize through a specified stub (a negative count panics = divergence)
+//@rule HOOK :: #\[cfg\(asynchronix_verif\)\]\s*crate::verif_hooks::pause_point\([^)]*\); ::  :: R19 verification-only pause points are no-ops without an installed callback
 //@rule PUBCRATE :: pub\(crate\) fn run :: fn run :: R7
 //@pyrule RET :: name_ret(res) :: R17
 use vstd::prelude::*;
@@ -129,7 +130,7 @@ impl Executor {
             final(self).parker.timed_out@ == !r,
     { unimplemented!() }
 
-//@item src=nexosim/src/executor/mt_executor.rs kind=fn name=run within=`impl Executor` rules=LOADCOUNT,PARK,PARKT,TRYINTO,PUBCRATE,RET canary=1
+//@item src=nexosim/src/executor/mt_executor.rs kind=fn name=run within=`impl Executor` rules=HOOK,LOADCOUNT,PARK,PARKT,TRYINTO,PUBCRATE,RET canary=1
     #[verifier::exec_allows_no_decreases_clause]   //@ the park loop ends when the workers say so: liveness of the pool (C04) is not in this family's reach
     fn run(&mut self, timeout: Duration) -> (res: Result<(), ExecutorError>)
         //@[
